@@ -124,6 +124,7 @@ c05_pkey_setup(void)
 		size_t q = ND_SIZE();
 		ASSUME(q <= 8);
 		c05_pkey.key.ec.curve = ND_INT();
+		ASSUME(c05_pkey.key.ec.curve >= 0 && c05_pkey.key.ec.curve <= 31);    /* curve identifiers are small (X.509 decoder: 23..25) */
 		c05_pkey.key.ec.q = c05_k1;
 		c05_pkey.key.ec.qlen = q;
 	} else {
@@ -225,6 +226,7 @@ c05_engine_env(br_ssl_engine_context *e)
 	{ size_t i; for (i = 0; i < 6; i ++) { if (ND_U8() & 1) { e->mhash.impl[i] = &c05_hc; } else { e->mhash.impl[i] = 0; } } }
 	/* invariants of the engine fields the natives index with */
 	ASSUME(e->ecdhe_point_len <= sizeof e->ecdhe_point);
+	ASSUME(e->ecdhe_curve <= 31);                /* set by the T0 code from the supported-curves mask (32 bits) */
 	ASSUME(e->session.session_id_len <= sizeof e->session.session_id);
 	e->server_name[sizeof e->server_name - 1] = 0;           /* NUL-terminated (br_ssl_engine_set_server_name / the T0 code) */
 }
